@@ -3,6 +3,7 @@
   (all event sequences by induction in Props/C09.lean).
 -/
 import NngModel.Proofs.BusPipe
+import NngModel.Generated.C09
 namespace Nng.Bus
 open Nng Nng.Proto
 
